@@ -9,6 +9,28 @@
 #include <stdlib.h>
 #include <string.h>
 
+// encodes c into temp (at least 5 chars) for storage in a Text and returns the number of bytes,
+// or 0 if c cannot be part of a Text: it is not a Unicode scalar value, or it is U+0000,
+// which is the terminator of the byte array and not a character of the Text
+static size_t text_char_to_bytes(char *temp, ddpchar c) {
+	size_t num_bytes = utf8_char_to_string(temp, c);
+	if (num_bytes == (size_t)-1 || c == 0) {
+		return 0;
+	}
+	return num_bytes;
+}
+
+// the result of a concatenation that adds nothing to str: str itself (claimed), {NULL, 0} if it is empty
+static void claim_string_or_empty(ddpstring *ret, ddpstring *str) {
+	if (ddp_string_empty(str)) {
+		ddp_free_string(str);
+		*ret = DDP_EMPTY_STRING;
+	} else {
+		*ret = *str;
+	}
+	*str = DDP_EMPTY_STRING;
+}
+
 ddpint ddp_string_length(ddpstring *str) {
 	if (ddp_string_empty(str)) {
 		return 0;
@@ -61,7 +83,10 @@ void ddp_replace_char_in_string(ddpstring *str, ddpchar ch, ddpint index) {
 
 	size_t oldCharLen = utf8_num_bytes(str->str + i);
 	char newChar[5];
-	size_t newCharLen = utf8_char_to_string(newChar, ch);
+	size_t newCharLen = text_char_to_bytes(newChar, ch);
+	if (newCharLen == 0) {
+		ddp_runtime_error(1, "Der Buchstabe mit dem Wert " DDP_INT_FMT " kann nicht in einem Text gespeichert werden\n", (ddpint)ch);
+	}
 
 	if (oldCharLen == newCharLen) { // no need for allocations
 		memcpy(str->str + i, newChar, newCharLen);
@@ -161,9 +186,10 @@ void ddp_char_string_verkettet(ddpstring *ret, ddpchar c, ddpstring *str) {
 	DDP_DBGLOG("_ddp_char_string_verkettet: %p, ret: %p", str, ret);
 
 	char temp[5];
-	size_t num_bytes = utf8_char_to_string(temp, c);
-	if (num_bytes == (size_t)-1) { // if c is invalid utf8, we return simply a copy of str
-		num_bytes = 0;
+	size_t num_bytes = text_char_to_bytes(temp, c);
+	if (num_bytes == 0) { // c cannot be part of a Text: the result is simply str
+		claim_string_or_empty(ret, str);
+		return;
 	}
 
 	if (ddp_string_empty(str)) {
@@ -187,9 +213,10 @@ void ddp_string_char_verkettet(ddpstring *ret, ddpstring *str, ddpchar c) {
 	DDP_DBGLOG("_ddp_string_char_verkettet: %p, ret: %p", str, ret);
 
 	char temp[5];
-	size_t num_bytes = utf8_char_to_string(temp, c);
-	if (num_bytes == (size_t)-1) { // if c is invalid utf8, we return simply a copy of str
-		num_bytes = 0;
+	size_t num_bytes = text_char_to_bytes(temp, c);
+	if (num_bytes == 0) { // c cannot be part of a Text: the result is simply str
+		claim_string_or_empty(ret, str);
+		return;
 	}
 
 	if (ddp_string_empty(str)) {
@@ -289,9 +316,10 @@ void ddp_char_to_string(ddpstring *ret, ddpchar c) {
 	DDP_DBGLOG("_ddp_bool_to_string: %p", ret);
 
 	char temp[5];
-	size_t num_bytes = utf8_char_to_string(temp, c);
-	if (num_bytes == (size_t)-1) { // invalid utf8, string will be empty
-		num_bytes = 0;
+	size_t num_bytes = text_char_to_bytes(temp, c);
+	if (num_bytes == 0) { // c cannot be part of a Text: the empty Text is {NULL, 0}
+		*ret = DDP_EMPTY_STRING;
+		return;
 	}
 
 	char *string = DDP_ALLOCATE(char, num_bytes + 1);
